@@ -31,6 +31,15 @@ Readings chosen (weakest consistent with the statement)
   * chop calls issued against the beam direction may raise ValueError or give the
     order-independent result; anything else is a violation.
   * empty frames have no subframes, so bounds need not be available for them.
+
+Persistent-object semantics ("any sequence of chop / propagate calls"): every Frame and FrameSequence obtained is
+kept and byte-snapshotted; after every operation all of them must be unchanged (kind earlier_frame_modified /
+earlier_sequence_modified) - deriving a variant must not change the base it was derived from.  A case is aborted at
+the first such hit (everything after it would be built on corrupted objects).  Cases of kind 'history' explore this
+breadth-first: every sequence of {chop([S1|S2 at the base's distance]), chop([Z at 0 m]), chop([F at 23.7 m]),
+propagate_to(same distance), propagate_to(30 m)} up to depth 3 (quick) / 4 (thorough) from one shared base sequence,
+with [distance] / [int] inspection and Frame-level propagate_to/chop on the held last frame at every node, every new
+frame compared with the exact reference, and all frames re-compared at the end.
 """
 from __future__ import annotations
 
@@ -52,7 +61,8 @@ RULE = (
     '{incremental, one call, all listing orders, all 2-splits (+propagate between, reversed blocks, against the beam), '
     'two-step propagation via 4 intermediate distances, indexing at/between/beyond choppers, array of distances} is '
     'executed; non-trivial = at least one chopper removes part of the pulse and something is transmitted; '
-    'states = distinct frames (vertex lists rounded to 1e-12) produced'
+    'states = distinct frames (vertex lists rounded to 1e-12) produced; history cases: BFS over all operation sequences '
+    'up to the depth bound from one shared base sequence, all earlier frames/sequences byte-compared after every operation'
 )
 ASSUMPTIONS = [
     'neutron kinematics t = t0 + (m_n/h) * lambda * d with m_n, h as scipp exposes them; windows are closed intervals',
@@ -63,9 +73,11 @@ ASSUMPTIONS = [
 BOUND = {
     'quick': '4 pulses; 1 chopper: 5 distances x 19 window patterns; 2 choppers: 4 distance pairs (one at equal distance) x 13^2 patterns; '
     '3 choppers: 2 ladders x 3^3 patterns x 2 pulses; 5 choppers: all 5 distances x 3^5 patterns; per configuration the whole program family '
-    '(all listing orders up to 4 choppers, 9 orders for 5), final distance 80 m; completed',
+    '(all listing orders up to 4 choppers, 9 orders for 5), final distance 80 m; histories: 2 pulses x 4 bases x all sequences of 6 operations '
+    'up to depth 3 (<= 259 sequences each); completed',
     'thorough': '7 pulses x 5 distances x 22 patterns (1 chopper); 6 pulses x all 15 distance pairs x 19^2 patterns (2 choppers); 4 pulses x 6 ladders x 6^3 '
-    '(3 choppers); 3 pulses x 2 ladders x 4^4 (4 choppers); 2 pulses x 2 ladders x 3^5 (5 choppers); same program family; completed',
+    '(3 choppers); 3 pulses x 2 ladders x 4^4 (4 choppers); 2 pulses x 2 ladders x 3^5 (5 choppers); same program family; '
+    'histories: 4 pulses x 6 bases x all sequences of 6 operations up to depth 4 (<= 1555 sequences each); completed',
 }
 REQUIRED_CLASSES = [
     'cut_const_lambda_edge_open',
@@ -375,6 +387,10 @@ class Ctx:
         for seq, ids, label in self.seqs:
             if [id(f) for f in seq.frames] != ids:
                 self.viol_once(site, 'earlier_sequence_modified', f'after {after}: the frame list of {label} changed ({len(ids)} -> {len(seq.frames)} frames)')
+                raise Abort
+        for ci, (ch, wins) in enumerate(zip(self.rchops, self.windows, strict=False)):
+            if ch.time_open.values.tolist() != [o for o, _ in wins] or ch.time_close.values.tolist() != [c for _, c in wins] or float(ch.distance.value) != float(self.mchops[ci].distance):
+                self.viol_once(site, 'chopper_modified', f'after {after}: the Chopper object {ci} passed in was changed')
                 raise Abort
         for snap in self.snaps.values():
             self.rec.validated += 1
@@ -1035,7 +1051,7 @@ def _run_history(ctx, case, rec):
         ctx.verify('Frame.chop', f'{path}[-1].propagate_to({d_last} m) / [-1].chop(S1)')
 
     observe(nodes[0])
-    frontier = nodes
+    frontier = list(nodes)
     for depth in range(1, case['depth'] + 1):
         nxt = []
         for node in frontier:
